@@ -11,6 +11,7 @@ use rs_opw_kinematics::jacobian::Jacobian;
 use rs_opw_kinematics::kinematic_traits::Joints;
 use rs_opw_kinematics::kinematics_impl::OPWKinematics;
 use rs_opw_kinematics::parameters::opw_kinematics::Parameters;
+use rs_opw_kinematics::parallelogram::Parallelogram;
 use rs_opw_kinematics::tool::{Base, Tool};
 use serde_json::{json, Value};
 use std::sync::Arc;
@@ -24,12 +25,24 @@ fn stack_isos(variant: usize) -> (Iso, Iso) {
         0 => (Iso::identity(), Iso::identity()),
         1 => (Iso::identity(), t),
         2 => (g, Iso::identity()),
+        4 | 6 => (Iso::identity(), t),
+        5 => (g, Iso::identity()),
         _ => (g, t),
     }
 }
 
+/// parallelogram coupling (driven, coupled, scaling) of the stack variant: inner[coupled] = q[coupled] - s*q[driven]
+fn stack_para(variant: usize) -> Option<(usize, usize, f64)> {
+    match variant {
+        4 => Some((1, 2, 1.0)),
+        5 => Some((0, 5, -0.5)),
+        6 => Some((1, 2, 0.5)),
+        _ => None,
+    }
+}
+
 fn variant_name(v: usize) -> &'static str {
-    ["bare", "tool", "base", "base+tool"][v]
+    ["bare", "tool", "base", "base+tool", "para+tool", "base+para", "halfpara+tool"][v]
 }
 
 /// limits: 0 none; 1 + 2k: joint k exactly at its upper limit; 2 + 2k: joint k exactly at its lower limit
@@ -55,6 +68,14 @@ fn jac(p: &Parameters, variant: usize, q: &Joints, eps: f64, limits: usize) -> J
         0 => Jacobian::new(&robot, q, eps),
         1 => Jacobian::new(&Tool { robot: Arc::new(robot), tool: to_na(&t) }, q, eps),
         2 => Jacobian::new(&Base { robot: Arc::new(robot), base: to_na(&b) }, q, eps),
+        4 | 6 => {
+            let (driven, coupled, scaling) = stack_para(variant).unwrap();
+            Jacobian::new(&Tool { robot: Arc::new(Parallelogram { robot: Arc::new(robot), scaling, driven, coupled }), tool: to_na(&t) }, q, eps)
+        }
+        5 => {
+            let (driven, coupled, scaling) = stack_para(5).unwrap();
+            Jacobian::new(&Parallelogram { robot: Arc::new(Base { robot: Arc::new(robot), base: to_na(&b) }), scaling, driven, coupled }, q, eps)
+        }
         _ => Jacobian::new(&Tool { robot: Arc::new(Base { robot: Arc::new(robot), base: to_na(&b) }), tool: to_na(&t) }, q, eps),
     }
 }
@@ -68,7 +89,19 @@ fn twist_iso(x: &[f64; 6]) -> Isometry3<f64> {
 
 pub fn eval(p: &Parameters, variant: usize, q: &Joints, eps: f64, limits: usize) -> Result<(Vec<(String, String)>, String), &'static str> {
     let (b, t) = stack_isos(variant);
-    let jg = fkref::geometric_jacobian(p, q, &b, &t);
+    let jg = match stack_para(variant) {
+        None => fkref::geometric_jacobian(p, q, &b, &t),
+        Some((d, c, s)) => {
+            // chain rule through the coupling: the driven joint also turns the coupled one by -s
+            let mut inner = *q;
+            inner[c] -= s * q[d];
+            let mut m = fkref::geometric_jacobian(p, &inner, &b, &t);
+            for r in 0..6 {
+                m[r][d] -= s * m[r][c];
+            }
+            m
+        }
+    };
     let jg_na = Matrix6::from_fn(|r, c| jg[r][c]);
     let sv = jg_na.svd(false, false).singular_values;
     let (smax, smin) = (sv.max(), sv.min());
@@ -186,14 +219,22 @@ pub fn run(ctx: &Ctx) -> Report {
     } else {
         [vec![0.4, -2.4], vec![-0.9, 0.5], vec![-1.9, 0.8], vec![0.3, -1.3], vec![0.6, -1.2, 0.05], vec![0.2]]
     };
-    let sizes: Vec<usize> = [robots.len(), 4, EPSS.len(), 13].into_iter().chain(ax.iter().map(|a| a.len())).collect();
+    let sizes: Vec<usize> = [robots.len(), 7, EPSS.len(), 13].into_iter().chain(ax.iter().map(|a| a.len())).collect();
     let n = par::product(&sizes);
     let mut rep = par::run(n, |idx, r| {
         let mut ix = [0usize; 10];
         par::decode(idx, &sizes, &mut ix);
         let p = &robots[ix[0]];
         let th = [ax[0][ix[4]], ax[1][ix[5]], ax[2][ix[6]], ax[3][ix[7]], ax[4][ix[8]], ax[5][ix[9]]];
-        let q = user_joints(p, &th);
+        let mut q = user_joints(p, &th);
+        // whole turns on top of the lattice posture: the same posture for a serial chain, a different one under a
+        // coupling with a non-integer ratio
+        let turns = (idx as usize / 13) % 3;
+        if turns > 0 {
+            for (i, x) in q.iter_mut().enumerate() {
+                *x += [0.0, 2.0 * std::f64::consts::PI, -2.0 * std::f64::consts::PI][(turns + i) % 3];
+            }
+        }
         let limits = ix[3];
         // limit variants rotate over the lattice in the quick tier (every posture sees a few of them)
         if !thorough && limits != 0 && (idx as usize / 13 + limits) % 4 != 0 {
@@ -216,11 +257,11 @@ pub fn run(ctx: &Ctx) -> Report {
         }
     });
     rep.traces_validated = rep.states;
-    rep.rule = "robots R (unconstrained, and constrained with each joint in turn exactly on its upper / lower limit) x stacks {bare, tool, base, base+tool} x joint lattice (geometric Jacobian condition number < 1e3, else skipped_precondition) x \
+    rep.rule = "robots R (unconstrained, and constrained with each joint in turn exactly on its upper / lower limit) x stacks {bare, tool, base, base+tool, tool over parallelogram(J2->J3, 1.0 and 0.5), parallelogram(J1->J6, -0.5) over base} x joint lattice (a third of the postures with whole turns added to some joints) (geometric Jacobian condition number < 1e3, else skipped_precondition) x \
                 differencing steps {1e-7,1e-6,1e-5}; the private matrix is read row by row through torques_from_vector(e_k); oracle: geometric Jacobian from \
                 FK_ref axes/origins within eps*reach + 4e-15*reach/eps; J_geo*velocities(X) = X on the 6 basis twists + 2 mixed; torques = J_geo^T F; \
                 isometry/vector/fixed entry points agree; signature = (stack, condition-number decade)".into();
-    rep.set("axes", json!({"robots": robots.len(), "stacks": 4, "eps": EPSS.to_vec(), "theta_axis_sizes": ax.iter().map(|a| a.len()).collect::<Vec<_>>() }));
+    rep.set("axes", json!({"robots": robots.len(), "stacks": 7, "eps": EPSS.to_vec(), "theta_axis_sizes": ax.iter().map(|a| a.len()).collect::<Vec<_>>() }));
     rep.assumptions.push("a linear map is decided on a basis: the 6 unit twists/wrenches are exhaustive for the velocity/torque clauses at each lattice posture".into());
     rep
 }
